@@ -421,25 +421,18 @@ Section Spans.
                               | OutOfFuel => OutOfFuel end.
   Proof. unfold inputs_of. apply omap_input_at_msr. Qed.
 
-  Lemma scan_inputs_msi inputs : forall pp prev,
-    scan_inputs (map msi inputs) (option_map msi pp) (option_map msi prev)
-    = match scan_inputs inputs pp prev with
-      | Ok o => Ok (option_map msi o) | Err e => Err (msrerr e) | Panic m => Panic m | OutOfFuel => OutOfFuel
-      end.
+  Lemma first_clash_msi pp inputs :
+    first_clash (option_map msi pp) (map msi inputs) = option_map msrerr (first_clash pp inputs).
   Proof.
-    induction inputs as [|i r IH]; intros pp prev; cbn [map scan_inputs]; [reflexivity|].
-    destruct pp as [p|]; cbn [option_map].
-    - destruct p, i; reflexivity.
-    - assert (Hs : is_star_subword (msi i) = is_star_subword i) by (destruct i; reflexivity).
-      rewrite Hs. destruct (is_star_subword i) as [b| | |] eqn:Ei; cbn [obind]; try reflexivity;
-        [|destruct i; discriminate].
-      specialize (IH None (if b then Some i else prev)). cbn [option_map] in IH.
-      destruct b; exact IH.
+    destruct pp as [p|]; [|reflexivity]. destruct inputs as [|i r]; [reflexivity|].
+    destruct p, i; reflexivity.
   Qed.
 
   Section EachTail.
-    Variable rec : list N -> list N -> rres (list N).
+    Variable r : regex.
+    Variable rec : list N -> option rinput -> list N -> rres (list N).
     Variable fw : list (N * list N).
+    Variable pp : option rinput.
     Fixpoint each_t (ps : list N) (visited : list N) : rres (list N) :=
       match ps with
       | [] => Ok visited
@@ -447,7 +440,11 @@ Section Spans.
           if memN p visited then each_t rest visited
           else match assocN p fw with
                | None => each_t rest visited
-               | Some follow => do v1 <- rec follow (p :: visited); each_t rest v1
+               | Some follow =>
+                   do inp <- input_at r p;
+                   do st <- is_star_subword inp;
+                   do v1 <- rec follow (opt_or pp (if st then Some inp else None)) (p :: visited);
+                   each_t rest v1
                end
       end.
   End EachTail.
@@ -455,17 +452,27 @@ Section Spans.
   Lemma tail_only_S r fw fuel fp pp visited :
     tail_only r fw (S fuel) fp pp visited =
     do inputs <- inputs_of r fp;
-    do prev <- scan_inputs inputs pp None;
-    each_t (fun follow v => tail_only r fw fuel follow (opt_or pp prev) v) fw fp visited.
+    match first_clash pp inputs with
+    | Some e => Err e
+    | None => each_t r (tail_only r fw fuel) fw pp fp visited
+    end.
   Proof. reflexivity. Qed.
 
-  Lemma each_t_ext (rec rec' : list N -> list N -> rres (list N)) fw ps :
-    (forall a b, rec' a b = mres (rec a b)) ->
-    forall visited, each_t rec' fw ps visited = mres (each_t rec fw ps visited).
+  Lemma each_t_msr x (rec rec' : list N -> option rinput -> list N -> rres (list N)) fw pp ps :
+    (forall a o b, rec' a (option_map msi o) b = mres (rec a o b)) ->
+    forall visited, each_t (msr x) rec' fw (option_map msi pp) ps visited = mres (each_t x rec fw pp ps visited).
   Proof.
     intro H. induction ps as [|p r IH]; intro visited; cbn [each_t]; [reflexivity|].
     destruct (memN p visited); [apply IH|]. destruct (assocN p fw); [|apply IH].
-    rewrite H. destruct (rec l (p :: visited)); cbn [mres obind]; try reflexivity. apply IH.
+    unfold input_at. cbn [msr r_inputs]. rewrite nthN_map'.
+    destruct (nthN (r_inputs x) p) as [i|]; cbn [option_map obind mres]; [|reflexivity].
+    assert (Hs : is_star_subword (msi i) = is_star_subword i) by (destruct i; reflexivity).
+    rewrite Hs. destruct (is_star_subword i) as [st|e0| |] eqn:Ei; cbn [obind mres]; try reflexivity;
+      [|destruct i; discriminate].
+    assert (Ho : opt_or (option_map msi pp) (if st then Some (msi i) else None)
+                 = option_map msi (opt_or pp (if st then Some i else None))).
+    { destruct pp; [reflexivity|]. destruct st; reflexivity. }
+    rewrite Ho, H. destruct (rec l _ (p :: visited)); cbn [mres obind]; try reflexivity. apply IH.
   Qed.
 
   Lemma tail_only_msr x fw fuel : forall fp pp visited,
@@ -474,12 +481,8 @@ Section Spans.
     induction fuel as [|fuel IH]; intros fp pp visited; [reflexivity|].
     rewrite !tail_only_S, inputs_of_msr.
     destruct (inputs_of x fp) as [inputs| | |]; cbn [obind mres]; try reflexivity.
-    pose proof (scan_inputs_msi inputs pp None) as Hs. cbn [option_map] in Hs. rewrite Hs.
-    destruct (scan_inputs inputs pp None) as [prev| | |]; cbn [obind mres]; try reflexivity.
-    apply each_t_ext. intros a b.
-    assert (Ho : opt_or (option_map msi pp) (option_map msi prev) = option_map msi (opt_or pp prev)).
-    { destruct pp; reflexivity. }
-    rewrite Ho. apply IH.
+    rewrite first_clash_msi. destruct (first_clash pp inputs); cbn [option_map mres]; [reflexivity|].
+    apply each_t_msr. intros a o b. apply IH.
   Qed.
 
   Lemma check_tail_only_msr x : check_tail_only (msr x) = mres (check_tail_only x).
